@@ -417,6 +417,12 @@ async fn after_delivery(
     true
 }
 
+thread_local! {
+    /// stream mode: hold the first k deliveries undisposed, call drain(), wait for the sender's answer,
+    /// then dispose of them: the automatic top-up that follows must get the stream going again
+    static STREAM_DRAIN_AT: std::cell::Cell<Option<usize>> = std::cell::Cell::new(None);
+}
+
 fn spawn_app(mut r: Receiver, log: Rc<RefCell<AppLog>>, mode: Mode, dispose_kind: u32, batch: usize, manual_credits: Vec<u32>, drain_after: Option<usize>, net: crate::net::NetHandle, resume_after: Option<usize>) {
     sim::spawn("app-receiver", async move {
         let mut pending = Vec::new();
@@ -434,6 +440,9 @@ fn spawn_app(mut r: Receiver, log: Rc<RefCell<AppLog>>, mode: Mode, dispose_kind
         let mut disposer = r.disposer();
         let mut resume_after = resume_after;
         let mut resume_due = false;
+        let stream_drain_at = STREAM_DRAIN_AT.with(|c| c.take());
+        let mut held_for_drain: Vec<DeliveryInfo> = Vec::new();
+        let mut drained = false;
         loop {
             // detach (non-closing) and resume: when the credit is used up and everything that was
             // received has been disposed of, so that nothing is in flight and nothing unsettled
@@ -502,6 +511,27 @@ fn spawn_app(mut r: Receiver, log: Rc<RefCell<AppLog>>, mode: Mode, dispose_kind
                 }
             };
             since_credit += 1;
+            if let (Some(k), false) = (stream_drain_at, drained) {
+                held_for_drain.push(info);
+                if held_for_drain.len() >= k {
+                    drained = true;
+                    log.borrow_mut().drains += 1;
+                    let _ = r.drain().await;
+                    sim::fault("drain-called-in-automatic-credit-mode");
+                    let mut waited = 0;
+                    while !log.borrow().drain_answered && waited < 30_000 {
+                        sim::sleep_ms(10).await;
+                        waited += 10;
+                    }
+                    world::quiesce_pair(&net).await;
+                    // now the held deliveries are disposed of, one by one: the link tops the credit up
+                    for h in held_for_drain.drain(..) {
+                        let _ = r.accept(h).await;
+                    }
+                    sim::probe("disposals-after-a-drain-in-automatic-mode");
+                }
+                continue;
+            }
             match dispose_kind {
                 // 0: accept each; 1: batches via accept_all; 2: alternate outcomes; 3: via the disposer; 4: never
                 0 => {
@@ -661,6 +691,46 @@ async fn script(
                     break;
                 }
                 tokio::time::sleep(std::time::Duration::from_millis(50)).await;
+            }
+            // The stream is over and the application has read everything: nothing is in flight and
+            // nobody is about to write a flow. The sender now advances its delivery-count on its own
+            // (only the sender may do that; it gives up some of the credit it holds) and asks for the
+            // receiver's state with echo. Whatever flow the receiver writes now is written after it
+            // has learnt that delivery-count, and must report it.
+            if mode == Mode::Stream && st.detached.is_none() && !unread_backlog(st) && log.borrow().error.is_none() && choice(2) == 1 {
+                let avail = available_credit(st);
+                if avail >= 1 {
+                    let jump = 1 + choice(avail.min(5));
+                    st.dc_snd = st.dc_snd.wrapping_add(jump);
+                    st.stmts.push(DcStmt { value: st.dc_snd, completed_at: st.completed });
+                    let flows_before = st.flows_seen;
+                    let mut f = st.ps.flow_args();
+                    f.handle = Some(st.peer_handle);
+                    f.delivery_count = Some(st.dc_snd);
+                    f.link_credit = Some(avail - jump.min(avail));
+                    f.available = Some(0);
+                    f.echo = Some(true);
+                    peer.send(st.ps.channel, &peer::flow(&f)).await;
+                    sim::fault("sender-advanced-its-delivery-count-and-asked-for-an-echo");
+                    if !quiesce(peer, st, net).await {
+                        return;
+                    }
+                    if st.flows_seen > flows_before {
+                        match st.grant {
+                            Some((dc, _, _)) if dc == st.dc_snd => sim::probe("echo-answer-reports-the-delivery-count-just-learnt"),
+                            other => {
+                                sim::violation(
+                                    "echo-answer-reports-stale-delivery-count",
+                                    format!(
+                                        "with nothing in flight the sender stated delivery-count {} in a flow that asked for an echo; the receiver's answer reports {:?} (delivery-count, link-credit, drain)",
+                                        st.dc_snd, other
+                                    ),
+                                );
+                                return;
+                            }
+                        }
+                    }
+                }
             }
         }
         Mode::Overrun => {
@@ -846,6 +916,13 @@ pub async fn run_client() {
         None => return,
     };
     let log = Rc::new(RefCell::new(AppLog::default()));
+    if let (Mode::Stream, false, CreditMode::Auto(n)) = (mode, auto_accept, &credit_mode) {
+        if *n >= 2 && *n <= 10 && bad_den == 0 && choice(3) == 0 && !STREAM_ONLY.with(|f| f.get()) {
+            let k = (*n / 2).max(1) as usize;
+            STREAM_DRAIN_AT.with(|c| c.set(Some(k)));
+            sim::append_config(&format!(" drain-in-auto-mode-after={}", k));
+        }
+    }
     spawn_app(receiver, log.clone(), mode, dispose_kind, batch, manual_credits.clone(), drain_after, net.clone(), resume_after);
     let max_credit = match &credit_mode {
         CreditMode::Auto(n) => *n,
